@@ -391,9 +391,11 @@ func (c *Cluster) execMaster(sc *Conn, req *wire.Request, ok proto.Message) *Rep
 		c.problemLocked("master method %s on a %q connection", e.Method, sc.Service)
 	}
 	if sc.Addr != c.MasterAddr {
-		e.Result = PleaseHold
+		// a master that is not (or no longer) the active one has not started its master service:
+		// HMaster.checkServiceStarted answers ServerNotRunningYetException
+		e.Result = NotRunningYet
 		c.logExecLocked(e)
-		return &Reply{Exc: &Exc{Class: PleaseHold, Stack: "not the active master"}}
+		return &Reply{Exc: &Exc{Class: NotRunningYet, Stack: NotRunningYet + ": Server is not running yet"}}
 	}
 	mk := "master"
 	e.Marker = mk
